@@ -378,6 +378,21 @@ pub fn c06(tier: Tier) -> ! {
             }
         }
     }
+    let wide_scripts: Vec<(Cfg, ProbeSpec, Vec<StepScript>)> = {
+        // a state with 300 parameters: accepted and refused proposals on parameters beyond the
+        // 256th, interleaved with ones below
+        let n = 300usize;
+        let spec = ProbeSpec { bounds: vec![(-1., 1.); n], start: (0..n).map(|i| -0.5 + i as f64 / 400.).collect(), s0: 0., memo: true, alias: false };
+        let mut v = vec![];
+        for order in [vec![280usize, 290, 5, 299, 34, 290], vec![256, 0, 257, 1, 258, 2], vec![299, 299, 43, 43, 270, 14]].iter() {
+            for refused in 0..order.len() {
+                let cfg = Cfg { steps: order.len() as u64, inner: 3, kt_start: 0., kt_finish: None, kt_ratio: Some(0.), max_step: 0.05, convergence: None, history: 0 };
+                let script: Vec<StepScript> = order.iter().enumerate().map(|(t, &i)| StepScript { index: i, q: 0.75, thr_k: thr_k_of(0.5), answer: if t == refused { None } else { Some((t + 1) as f64) } }).collect();
+                v.push((cfg, spec.clone(), script));
+            }
+        }
+        v
+    };
     let judge = |_cfg: &Cfg, _spec: &ProbeSpec, _s: &[StepScript], obs: &Obs, an: &Analysis| -> Vec<(Option<&'static str>, String)> {
         let mut v = vec![];
         // a proposal without a score cannot become the current state in any reading (there is no
@@ -411,6 +426,14 @@ pub fn c06(tier: Tier) -> ! {
         v
     };
     let t = run_jobs(&mut run, &jobs, &judge);
+    for (cfg, spec, script) in wide_scripts.iter() {
+        let obs = run_script(cfg, spec, script);
+        let an = analyse(cfg, &obs, None);
+        for (_, what) in judge(cfg, spec, script, &obs, &an) {
+            run.fail(None, &format!("state with 300 parameters: {}", what), case_json(cfg, spec, script));
+        }
+    }
+    run.set("wide_state_scripts", wide_scripts.len() as u64);
     setter_orders(&mut run, &pick_for_setter_orders(&plain_jobs, tier.pick(8, 32)), &judge);
     // real hard and LJ states under the crate's own generator (supplementary: the seeds are a sample)
     let rr = crate::rsx::real_runs(tier);
@@ -507,7 +530,9 @@ pub fn c07(tier: Tier) -> ! {
     for n in 2..=3usize {
         for &(steps, inner) in steps_grid(tier).iter() {
             for &(kt, fin, ratio) in [(0., None, Some(0.)), (0., None, Some(0.5)), (0.1, None, Some(0.)), (1., None, Some(0.5)), (0.5, Some(0.05), None), (1e-3, None, None), (f64::INFINITY, None, Some(0.)), (-1., None, Some(0.)), (1., None, Some(1.)), (0.5, Some(0.), None), (0., None, Some(f64::NEG_INFINITY))].iter() {
-                for (pi, pat) in patterns().into_iter().enumerate() {
+                // (the fifth pattern: every other proposal scores minus infinity - a score, but one no
+                // finite temperature accepts)
+                for (pi, pat) in patterns().into_iter().chain(vec![vec![Some(0.), Some(f64::NEG_INFINITY)]].into_iter()).enumerate() {
                     if tier == Tier::Quick && (pi + n + steps as usize) % 2 == 1 {
                         continue;
                     }
@@ -815,7 +840,7 @@ pub fn c19(tier: Tier) -> ! {
     let grid: Vec<(u64, u64)> = if tier == Tier::Quick { vec![(4, 1), (4, 2), (6, 2), (6, 3), (6, 1)] } else { vec![(4, 1), (4, 2), (6, 1), (6, 2), (6, 3), (8, 2), (12, 2), (12, 3), (9, 3), (7, 3), (5, 9)] };
     for n in 1..=3usize {
         for &(steps, inner) in grid.iter() {
-            for &ms in [1e-6, 1e-4, 0.01, 0.1, 0.5, 1., 1.5].iter() {
+            for &ms in [0., 1e-6, 1e-4, 0.01, 0.1, 0.5, 1., 1.5].iter() {
                 for &(kt, fin, ratio) in [(0., None, Some(0.)), (1e300, None, Some(0.)), (0.1, Some(10.), None), (0.5, None, Some(-3.)), (1., Some(1e-3), None)].iter() {
                     for pat in patterns().into_iter() {
                         for &q in [0., 0.75].iter() {
@@ -1344,6 +1369,21 @@ pub fn c20_library(run: &mut Run, tier: Tier) -> LibC20 {
         let want = if expect_exit { (6 * ie).min(full.proposals.len()) } else { full.proposals.len() };
         if obs.proposals.len() != want {
             run.fail(None, &format!("scores falling by 1e-9 per step at kT = 0.1, threshold {}: {} proposals evaluated, {} expected (exit after six consecutive loops below the threshold: {})", thr, obs.proposals.len(), want, expect_exit), case);
+        }
+    }
+    // nothing accepted at all, a score of 2 and thresholds far below the spacing of doubles at 2:
+    // every loop gains exactly zero, which is less than any positive threshold
+    for &(steps, inner) in [(12u64, 1u64), (20, 2)].iter() {
+        for &conv in [1e-30, 1e-300, f64::MIN_POSITIVE].iter() {
+            let cfg = Cfg { steps, inner, kt_start: 0., kt_finish: None, kt_ratio: Some(0.), max_step: 0.01, convergence: Some(conv), history: 0 };
+            let spec = ProbeSpec::interior(2).with_s0(2.);
+            let script: Vec<StepScript> = (1..=steps as usize).map(|t| StepScript { index: (t - 1) % 2, q: 0.75, thr_k: thr_k_of(0.5), answer: None }).collect();
+            let obs = run_script(&cfg, &spec, &script);
+            falling_runs += 1;
+            let want = 6 * inner as usize;
+            if obs.panic.is_some() || obs.proposals.len() != want {
+                run.fail(None, &format!("every proposal refused (gain exactly 0 per loop), threshold {:e}: {} proposals evaluated, {} expected (six loops below the threshold)", conv, obs.proposals.len(), want), case_json(&cfg, &spec, &script));
+            }
         }
     }
     run.set("falling_score_runs", falling_runs);
